@@ -7,7 +7,7 @@
   obligation that today's tables have the shape the typed wrappers rely on.  What ties the model to the code is
   engine `ksc` (real Marshal / Unmarshal, real put* / fetch* on a real LevelDB, through hooks_verif.go).
 -/
-import MW.Lemmas.KsCodecJson
+import MW.Lemmas.KsCodecSpec
 namespace MW.Props.C05Codec
 open MW MW.Model.KsCodec MW.KsCodecL
 open MW.Gen.KsCodec (masterPrivKeyName masterPubKeyName cryptoPrivKeyName cryptoPubKeyName cryptoEntropyKeyName
@@ -76,6 +76,12 @@ theorem names_distinct : NamesDistinct := nameKeys_distinct
 /-- hex.DecodeString ∘ hex.EncodeToString = id; odd lengths are refused -/
 theorem hex_roundtrip (bs : Bytes) : hexDec (hexEnc bs) = some bs := hexDec_hexEnc bs
 theorem hex_rejects_odd (s : Bytes) (h : s.length % 2 = 1) : hexDec s = none := hexDec_odd s h
+
+/-- for today's tables the table-driven snacl codec IS the format spec (salt ‖ digest ‖ N ‖ r ‖ p, 8-byte LE, 88 bytes),
+    on every input – a build that moved a field would disagree with the spec on a concrete input (driver column 2) -/
+theorem snacl_model_eq_spec (p : Params) (hs : p.salt.length = 32) (hd : p.digest.length = 32) (bs : Bytes) :
+    marshal p = some (Spec.KsCodec.marshal p) ∧ Spec.KsCodec.ofExcept (unmarshal bs) = Spec.KsCodec.unmarshal bs :=
+  ⟨marshal_eq_spec p hs hd, unmarshal_eq_spec bs⟩
 
 /-! non-vacuity -/
 def demoParams : Params := ⟨List.replicate 32 7, List.replicate 32 9, 262144, 8, 1⟩
